@@ -186,12 +186,16 @@ CHECKS = {
             dict(harness="C11_D1", cover=["value", "fault", "lazy", "badlit-skipped"], bounds="every operator variant (4 unary, 16 binary, && || ?:, 11 assignments x 3 lvalue forms, ++/-- prefix/postfix) over operands {a b x symbolic int64; u unset; e empty; o=010; h=0x1F; g=1z; literals 0 1 7 010 0x1F MaxInt64 08 0x}"),
             dict(harness="C11_D2", cover=["value", "fault", "lazy"], bounds="all ordered pairs of the 38 operator variants x inner-operand position x redundant parentheses; inner operands a b (symbolic int64), outer operands 3 5"),
             dict(harness="C11_Expand", bounds="the 38 depth-1 shapes through ParseCommands + Expand($((...)))"),
+            dict(harness="C11_Const", cover=["numeral", "identifier", "malformed"], bounds="numerals: prefix {none, 0, 0x, 0X, 1, 7} + 2 symbolic bytes over {0 1 8 9 a f g x z _ blank} against C's numeral grammar"),
             dict(harness="Conf_ArithCorpus", samples=300, bounds="translation validation: the 255 expression literals of the repository's arithmetic tests, concretely, engine vs native (value, error, variables must be identical)"),
         ],
         "thorough": [
             dict(harness="C11_D1", cover=["value", "fault", "lazy", "badlit-skipped"]),
             dict(harness="C11_D2", cover=["value", "fault", "lazy"]),
+            dict(harness="C11_D3", cover=["value", "fault"], bounds="three nested operators from {* / + - << < == & |, unary + - ~ !} in every nesting position, inner operands a b (symbolic int64), redundant parentheses optional"),
+            dict(harness="C11_Const", cover=["numeral", "identifier", "malformed"], bounds="numerals: prefix {none, 0, 0x, 0X, 1, 7} + 2 symbolic bytes over {0 1 8 9 a f g x z _ blank} against C's numeral grammar"),
             dict(harness="C11_Expand"),
+            dict(harness="Conf_ArithCorpus", samples=300),
         ],
     },
     "C12": {
